@@ -100,9 +100,78 @@ def sukf : R String := do
   else
     pure (join ("ok" :: outGM (sukfCorrect invQ bs R inp b out) ++ likOut (sukfStepLikelihood invQ bs R inp b)))
 
+
+/-! ### Histories: one object driven through a sequence of operations (`sukfSysRun` / `ukfSysRun`)
+
+  sukfh n nc bs red s nops { op }*
+     op:  C msz k vM vP vI y(msz) wm(s) wc(s) means(n×k) covs(n×nk) outw(k) X(n×sk) Yp(msz×sk) R   correct(), the noise
+                                                                              covariance in force given with the call
+          S b        skip(b)
+          M          move construction
+          Q msz R    getLikelihood(), the measurement model reporting R (for a measurement of size msz) at that moment
+   -> ok { B mean(nk) cov(nnk) | L k l.. | N }*  U  { the same for the standard correction object }*
+-/
+
+/-- every inverse certified on the spot (`A·X = 1 ∧ X·A = 1`), the zero matrix otherwise -/
+def invC : InvFn Rat := fun n A =>
+  let A := Mat.eval A
+  let X := invQ n A
+  if certInvQ A X then X else Mat.zero
+
+def noiseAt (bs m0 : Nat) (R : SNoise Rat m0 bs) : NoiseFn Rat bs :=
+  fun msz => if h : msz = m0 then SNoise.cast h R else .reduced Mat.zero
+
+def readNoise (msz bs : Nat) (red : Bool) : R (SNoise Rat msz bs) :=
+  if red then (do let R0 ← matCM rat bs bs; pure (.reduced (Mat.eval R0)))
+  else (do let R0 ← matCM rat msz msz; pure (.full (Mat.eval R0)))
+
+def readOp (n nc bs : Nat) (red : Bool) (s : Nat) : R (List (SukfOp Rat bs)) := do
+  let t ← tok
+  match t with
+  | "C" =>
+    let msz ← nat; let k ← nat
+    let vM ← bool; let vP ← bool; let vI ← bool
+    let y ← vec rat msz
+    let wm ← vec rat s
+    let wc ← vec rat s
+    let b ← readGM n k
+    let X ← matCM rat n (s * k)
+    let Yp ← matCM rat msz (s * k)
+    let R ← readNoise msz bs red
+    let inp : SukfIn Rat n msz s k :=
+      { validMeas := vM, validPred := vP, validInnov := vI, y := y
+        X := fun i => colBlock s k X i, Yp := fun i => colBlock s k Yp i, nc := nc, wm := wm, wc := wc }
+    pure [.setNoise (noiseAt bs msz R), .correct { n := n, msz := msz, s := s, k := k, inp := inp, b := b, out := b }]
+  | "S" => do let st ← bool; pure [.skip st]
+  | "M" => pure [.move]
+  | "Q" => do
+    let msz ← nat
+    let R ← readNoise msz bs red
+    pure [.setNoise (noiseAt bs msz R), .query]
+  | _ => failure
+
+def obsOut : SukfObs Rat → List String
+  | .belief _ _ g =>
+    "B" :: (((List.finRange _).flatMap fun i => outVec ratStr (Vec.eval (g.mean i))) ++
+            ((List.finRange _).flatMap fun i => outMatCM ratStr (Mat.eval (g.cov i))))
+  | .lik none => ["N"]
+  | .lik (some ⟨k, l⟩) => ["L", toString k] ++ outVec outF (Vec.eval l)
+
+def sukfh : R String := do
+  let n ← nat; let nc ← nat; let bs ← nat; let red ← bool; let s ← nat; let nops ← nat
+  if bs == 0 then pure "bad-args" else
+  let opss ← listOf nops (readOp n nc bs red s)
+  done
+  let ops := opss.flatten
+  let f0 : NoiseFn Rat bs := fun _ => .reduced Mat.zero
+  let rs := sukfSysRun invC ⟨sukfNew, f0⟩ ops
+  let ru := ukfSysRun invC ⟨{ skip := false, stored := none }, f0⟩ ops
+  pure (join ("ok" :: (rs.2.flatMap obsOut) ++ ["U"] ++ (ru.2.flatMap obsOut)))
+
 def handle (op : String) (args : List String) : Option String :=
   match op with
   | "sukf" => some ((run sukf args).getD "bad-args")
+  | "sukfh" => some ((run sukfh args).getD "bad-args")
   | _ => none
 
 end BFL.DriverSUKF
